@@ -602,6 +602,42 @@ SCENARIOS = [
     ("PB", "tag_delete:cache+gc"), ("PB", "retag:c2:cache+gc"), ("PB", "tag_delete:nest+gc"),
     ("E", "copy:cache:ib+gc"), ("P1", "copy:cache:ib+gc"), ("E", "copy:nest:in+gc"), ("PB", "import:v3:m3r+gc"),
 ]
+# size of the existing layout state: index.json padded to just above / below round sizes (two tags, like P2)
+BIG_STATES = {"L1Mp": "P2", "L4Mm": "P2", "L4Mp": "P2", "L8Mp": "P2", "L16Mm": "P2", "L16Mp": "P2"}   # -> same content in (D)
+BIG_QUICK = [("L1Mp", "put_tag:v3:M3+gc"), ("L4Mm", "put_tag:v3:M3+gc"), ("L4Mp", "put_tag:v3:M3+gc"),
+             ("L4Mp", "tag_delete:v2+gc"), ("L4Mp", "copy:v3:m3+gc"), ("L4Mp", "import:v3:m3r+gc")]
+BIG_THOROUGH = [("L8Mp", "put_tag:v3:M3+gc"), ("L16Mm", "put_tag:v3:M3+gc"), ("L16Mp", "put_tag:v3:M3+gc"),
+                ("L16Mp", "put_ref:art:A1+gc"), ("L4Mp", "man_delete:M2+gc"), ("L4Mp", "put_index:ix:IX"),
+                ("L4Mp", "put_child:M3")]
+# histories of two operations: after a crash state of the first, ANOTHER operation that should complete the
+# content (import / copy of the image concerned) instead of the retry: object -> (source tag, archive)
+OBJ_SRC = {"M1": ("m1", "m1"), "M2": ("m2", "m2"), "M3": ("m3", "m3r"), "IX": ("ix", "ix"), "IB": ("ib", None), "IN": ("in", None)}
+
+
+def follow_ops(r):
+    """follow-up operations for the crash states of run r: [(op2, tag2, obj2)]"""
+    if r.second or "~" in r.op or r.start in BIG_STATES:
+        return []
+    info, kind, pre = r.info, r.info["kind"], r.pre_tags
+    gc = "+gc" in r.op
+    if kind == "tag_delete" and gc:
+        obj, tag = pre.get(info["optag"]), info["optag"]
+    elif kind == "man_delete" and gc:
+        obj = info["opobj"]
+        tag = next((t for t in sorted(pre) if pre[t] == obj), "w")
+    elif kind == "retag" and gc:
+        obj, tag = pre.get(info["optag"]), "w"         # the image that lost the moved tag
+    elif kind in ("copy", "import", "put_tag", "put_index"):
+        obj, tag = info["opobj"], info["optag"]
+    else:
+        return []
+    if obj not in OBJ_SRC:
+        return []
+    st, tar = OBJ_SRC[obj]
+    ops = ["copy:%s:%s+gc" % (tag, st)] + (["import:%s:%s+gc" % (tag, tar)] if tar else [])
+    return [(o, tag, obj) for o in ops if o != r.op]
+
+
 NOT_IN_D = ("s512",)          # (D) has one abstract blobs/<alg> directory: the sha512 recordings are not matched against it
 EXPECT_FAIL = ("blob_bad", "man_bad")
 STATES = ["E", "E0", "P1", "P2", "PX", "PR", "PR2", "PT", "PB"]
@@ -721,7 +757,8 @@ def run_scenario(env, sid, start, op, crashed=None):
     r.calls = calls
     rp = Replayer(fs, base)
     pre0 = ab.abstract(r.pre_fs)
-    info = r.info = op_info(ab, op, dict(zip(pre0["tag_t"], pre0["tag_d"])))
+    r.pre_tags = dict(zip(pre0["tag_t"], pre0["tag_d"]))
+    info = r.info = op_info(ab, op, r.pre_tags)
     r.snaps.append(fs.clone())
     counts = {}
     for c in calls:
@@ -783,6 +820,10 @@ def probe_all(env, runs, selected):
             d = os.path.join(base, "c%03d" % k)
             r.snaps[k].dump(d)
             jobs.append({"id": "%s#%d" % (r.sid, k), "dir": d, "op": r.op, "src": env["src"]})
+            for i, (op2, _, _) in enumerate(follow_ops(r)):
+                d2 = os.path.join(base, "f%03d_%d" % (k, i))
+                r.snaps[k].dump(d2)
+                jobs.append({"id": "%s#%d~f%d" % (r.sid, k, i), "dir": d2, "op": op2, "src": env["src"]})
         jobs.append({"id": "%s#end" % r.sid, "dir": r.final_dir, "op": "", "src": env["src"]})
     jf, of = os.path.join(work, "jobs.jsonl"), os.path.join(work, "probe.jsonl")
     with open(jf, "w") as f:
@@ -827,6 +868,13 @@ def build_trace(env, r, probes, dirs, selected):
         re_.update(facts_of(ab, after, info))
         re_.update(ab.fresh_facts(pr["after"], info["subj"]))
         evs.append(re_)
+        for i, (op2, tag2, obj2) in enumerate(follow_ops(r)):
+            pf = probes["%s#%d~f%d" % (r.sid, k, i)]
+            fo = {"ev": "follow", "k": k, "ok": 1 if pf["retry_ok"] else 0, "op2": op2, "kind2": op2.split(":")[0],
+                  "optag2": tag2, "opobj2": obj2, "tgt2": [tag2]}
+            fo.update(facts_of(ab, FS.load(dirs[pf["id"]]), info))
+            fo.update(ab.fresh_facts(pf["after"], info["subj"]))
+            evs.append(fo)
         r.notes[k] = {"fresh": pr["fresh"].get("notes", [])[:4], "tl_err": pr["fresh"].get("tl_err", ""),
                       "retry_err": pr.get("retry_err", ""), "after": pr["after"].get("notes", [])[:4]}
     pe = probes["%s#end" % r.sid]
@@ -892,7 +940,7 @@ def signature(t, ei, obl):
         return "%s/%s@end%s" % (kind, obl, sfx)
     k = ev["k"]
     se = next(e for e in t["events"] if e["ev"] == "sys" and e["k"] == k)
-    phase = {"sys": "crash", "fresh": "fresh", "retry": "retry"}[ev["ev"]]
+    phase = {"sys": "crash", "fresh": "fresh", "retry": "retry", "follow": "then-" + ev.get("kind2", "")}[ev["ev"]]
     return "%s/%s@%s:%s:%s[marker=%s,index=%s]%s" % (kind, obl, phase, se["call"], se["cls"], se["marker"], se["index"], sfx)
 
 
@@ -914,7 +962,7 @@ def prepare(ctx):
     ab = Abstractor(catalog)
     states = os.path.join(root, "states")
     os.makedirs(states)
-    for s in STATES:
+    for s in STATES + sorted(BIG_STATES if ctx.thorough else {x[0] for x in BIG_QUICK}):
         p = _sh([drv, "-mode", "setup", "-dir", os.path.join(states, s), "-src", src, "-state", s])
         if p.returncode != 0:
             raise vlib.ToolError("setup of start state %s failed: %s" % (s, p.stderr[-2000:]))
@@ -1076,6 +1124,7 @@ def binding_demo(ctx, traces, dtraces, matched, mode):
 
 CONCURRENT = ("copy", "copy_ref")
 S4_SIG = re.compile(r"[a-z_]+/[^<]*:openat_trunc:marker\[marker=empty,index=ok\]")
+GCCOPY_SIG = re.compile(r"[a-z_]+/O4(-fresh)?@then-copy:unlink:[^<]*")
 REFCOPY_SIG = re.compile(r"copy_ref/O6-referrers@retry:[^<]*")
 
 
@@ -1084,8 +1133,9 @@ def run(ctx):
     ctx.load_known = _known_loader(ctx)
     env = prepare(ctx)
     thorough = ctx.thorough
-    scenarios = list(SCENARIOS)
+    scenarios = list(SCENARIOS) + BIG_QUICK
     if thorough:
+        scenarios += BIG_THOROUGH
         # more interleavings of the concurrent operations
         scenarios += [sc for sc in SCENARIOS if sc[1].split(":")[0] in CONCURRENT] * 3
     if ctx.replay:
@@ -1093,10 +1143,10 @@ def run(ctx):
             rp = json.load(f)["replay"]
         scenarios = [(rp["scenario"]["start"], rp["scenario"]["op"])]
     runs = run_all(env, scenarios)
-    for r in runs:
-        if not r.res["ok"] and r.op.split(":")[0] not in EXPECT_FAIL:
-            raise vlib.ToolError("scenario %s %s does not run on this tree (uninterrupted operation failed: %s)"
-                                 % (r.start, r.op, r.res["err"]))
+    # an uninterrupted operation that fails is no violation by itself, but the scenario did not exercise what it was
+    # written for: tooling error - unless the same tree also shows real violations, which must not be hidden by it
+    not_run = ["%s %s: %s" % (r.start, r.op, r.res["err"][:160]) for r in runs
+               if not r.res["ok"] and r.op.split(":")[0] not in EXPECT_FAIL]
     mode = marker_mode(runs)
     first_level = list(runs)
     if thorough and not ctx.replay:
@@ -1129,6 +1179,11 @@ def run(ctx):
         rc_ = ctx.tlc("LayoutFSMC", "C07_mc_refcopyq.cfg", allow_violation=True, timeout=900,
                       label="image copy with referrers (counterexample expected: interrupted referrer copy not repaired)")
         mc.append(rc_)
+        mc.append(ctx.tlc("LayoutFSMC", "C07_mc_follow.cfg", timeout=900,
+                          label="baseline, histories: crash state of one operation, then import / copy of the image concerned"))
+        gcc = ctx.tlc("LayoutFSMC", "C07_mc_gccopy.cfg", allow_violation=True, timeout=900,
+                      label="copy of an index after an interrupted sweep (counterexample expected: child with a leftover manifest file is skipped)")
+        mc.append(gcc)
         # the as-found switch (MarkerMode = rewrite) with its expected counterexample: always in thorough, and in
         # quick when this tree is observed to rewrite oci-layout in place (e.g. the fix reverted)
         s4 = None
@@ -1185,7 +1240,8 @@ def run(ctx):
                 continue
             groups_reported.add(group)
         where = "after the operation returned" if ev["ev"] == "end" else \
-            "%s state after mutating call %d (%s %s)" % ({"sys": "crash", "fresh": "crash", "retry": "retried"}[ev["ev"]], k,
+            "%s state after mutating call %d (%s %s)" % ({"sys": "crash", "fresh": "crash", "retry": "retried",
+                                                          "follow": "crash + %s," % ev.get("op2", "")}[ev["ev"]], k,
                                                          r.events[k - 1]["call"], r.events[k - 1]["path"])
         what = "%s violated %s of %s on start state %s (%d x): %s" % (
             obl, where, t["scenario"]["op"], t["scenario"]["start"], len(sigs[sig]),
@@ -1195,6 +1251,10 @@ def run(ctx):
                                "crash_point": k, "notes": r.notes.get(k, {}),
                                "syscalls": [[e["call"], e["path"]] for e in r.events[:(k or len(r.events))]],
                                "cmd": "tools/check C07 --replay <this file>"})
+    if not_run:
+        if not ctx.violations:
+            raise vlib.ToolError("scenarios do not run on this tree (uninterrupted operation failed): " + "; ".join(not_run[:4]))
+        vlib.log("C07: %d scenarios did not run on this tree: %s" % (len(not_run), "; ".join(not_run[:4])))
     ncrash = sum(len(r.events) for r in runs)
     cov = {
         "states": states, "transitions": trans,
@@ -1202,14 +1262,15 @@ def run(ctx):
         "traces_total": len(traces), "traces_rejected": len(rejected),
         "crash_states": ncrash, "crash_states_probed_and_retried": len(selected),
         "crash_point_classes": nclasses,
-        "evaluations": ncrash + 2 * len(selected) + len(traces),
+        "evaluations": sum(len(t["events"]) for t in traces),
+        "follow_up_operations": sum(1 for t in traces for e in t["events"] if e["ev"] == "follow"),
         "distinct_nontrivial": nclasses,
         "rule": "an evaluation = one observed directory state (crash state after a prefix of the mutating system calls of "
                 "one real operation, the same state read by a fresh client, the state after the operation was repeated "
                 "on it, or the state at the return) judged by (P) under TLC; distinct = distinct (operation kind, call, "
                 "target file class, marker state, index state) crash points",
         "exhaustive": len(selected) == ncrash,
-        "marker_mode_observed": mode,
+        "marker_mode_observed": mode, "scenarios_not_run": not_run,
         "sigkill_confirmed": kill_ok, "sigkill_inconclusive": kill_inconclusive, "sigkill_points": kill_points[:10],
         "violating_states": len(viol), "violation_signature_count": len(sigs),
         "all_violation_signatures": sorted(sigs),
@@ -1227,12 +1288,14 @@ def run(ctx):
     cov["design_counterexamples"] = {
         "marker_rewrite_window": {"tlc": (s4["violated"] if s4 else None), "reproduced_on_real_code": seen_s4},
         "referrer_copy_retry": {"tlc": rc_["violated"], "reproduced_on_real_code": seen_rc},
+        "copy_after_gc_crash": {"tlc": gcc["violated"], "reproduced_on_real_code": any(GCCOPY_SIG.fullmatch(s) for s in sigs)},
     }
     if s4 is not None and not s4["violated"]:
         raise vlib.ToolError("LayoutFS with MarkerMode=rewrite and crashes in the marker window satisfies the property: "
                              "the as-found switch does not contain the hazard it was kept to expose")
     # the referrer copy is part of the baseline; the marker window only concerns a tree observed to rewrite in place
-    checks = [("referrer copy", rc_["violated"], seen_rc)]
+    checks = [("referrer copy", rc_["violated"], seen_rc),
+              ("copy after gc crash", gcc["violated"], any(GCCOPY_SIG.fullmatch(s) for s in sigs))]
     if mode == "rewrite":
         checks.append(("marker rewrite window", s4["violated"], seen_s4))
     elif seen_s4:
@@ -1291,7 +1354,7 @@ def run(ctx):
 
 def dtrace_of(ab, r):
     info = r.info
-    hdr = {"start": r.start, "kind": info["kind"], "t": info["optag"], "o": info.get("dobj", info["opobj"]),
+    hdr = {"start": BIG_STATES.get(r.start, r.start), "kind": info["kind"], "t": info["optag"], "o": info.get("dobj", info["opobj"]),
            "gc": 1 if "+gc" in r.op else 0}
     evs = []
     for e in r.events:
